@@ -40,7 +40,37 @@ UNITS['c15'] = {
     ],
 }
 
+UNITS['c07'] = {
+    'template': 'contracts/c07.vrs',
+    'mutants': [
+        ('occurs_skips_range', 'occurs(a, range) || {', 'false || {', ['C07.occurs']),
+        ('occurs_skips_property', 'occurs(a, prop)', 'false', ['C07.occurs']),
+        ('occurs_skips_bindings', 'if occurs(a, binding) {', 'if false {', ['C07.occurs']),
+        ('compress_wrong_way', 'self.parents[v] = w;', 'self.parents[w] = v;', ['C07.uf']),
+        ('reduce_no_progress', 'v = parent;', 'v = v;', ['C07.uf']),
+    ],
+}
+
 PROPS = {
+    'C07': {
+        'units': ['c07'],
+        'level': 'other',
+        'obligation_prefixes': ['C07.'],
+        'technique': 'Verus contracts on the real occurs (completeness against sub-term containment, termination) and UnionFind (ranked-forest invariant, termination of both loops, no panic, find returns a root)',
+        'level_text': 'Deductive proof (Verus/Z3), for all tags and all union-find states, of the function-level clauses only: occurs(a,b) is exactly '
+                      'sub-term containment through every constructor (so self-containing types cannot be bound), both path walks terminate, the forest '
+                      'invariant is preserved by insert/reduce_mut/union, no indexing or assert can panic. unify/constrain/substitute are outside Verus '
+                      '(closures capturing &mut), so order/naming independence and agreement with a reference unifier are not decided: level other.',
+        'level_note': 'Trusted: indexmap::IndexSet insert_full/get_full/get_index as an insertion-ordered duplicate-free sequence; derived PartialEq of Tag is structural; '
+                      'rule R4 (iter().any inlined to its short-circuit loop), R1 (break v -> return v at tail loop). Not decided: that unify calls occurs before binding, '
+                      'order / renaming independence, coincidence with solvability.',
+        'design_ref': 'DESIGN.md section 5, C07',
+        'explanation': 'Decides: (1) occurs is complete w.r.t. containment through Func bindings, Func range and Property (postcondition taken from the property, not the code); '
+                       '(2) UnionFind: ranked-forest invariant preserved, reduce/reduce_mut terminate and return a root, insert/union/find cannot panic. '
+                       'Does not decide unify/reduce(free fn)/constrain/substitute (Verus rejects closures capturing &mut UnionFind; Kani did not finish on depth-1 tags).',
+        'assumptions': ['IndexSet behaves as documented (conformance not proved)', 'Tag equality is structural'],
+        'not_decided': ['unify calls occurs before every binding', 'verdict independent of declaration order and identifier spelling', 'verdict coincides with solvability of the kind constraints', 'termination of union::reduce (free function) and substitute'],
+    },
     'C15': {
         'units': ['c15', 'c16'],
         'level': 'other',
@@ -133,7 +163,6 @@ NOT_APPLICABLE = {
     'C01': 'contract not completed yet (see DESIGN.md section 5, C01)',
     'C03': 'contract not completed yet',
     'C04': 'contract not completed yet',
-    'C07': 'contract not completed yet',
     'C10': 'contract not completed yet',
     'C11': 'contract not completed yet',
 }
